@@ -226,6 +226,9 @@ pub struct Ctx {
     pub known: Vec<KnownFinding>,
     /// strict = replay mode: known findings are not tolerated silently, they are returned.
     pub strict: bool,
+    /// proptest shrink budget (iterations); node-based checks lower it because one evaluation
+    /// costs node lifetimes
+    pub shrink_iters: std::cell::Cell<u32>,
 }
 
 impl Ctx {
@@ -245,6 +248,7 @@ impl Ctx {
             inconclusive: RefCell::new(vec![]),
             known,
             strict: false,
+            shrink_iters: std::cell::Cell::new(4096),
         }
     }
 
@@ -261,7 +265,13 @@ impl Ctx {
     }
 
     pub fn cases(&self, quick_total: u64, thorough_total: u64) -> u32 {
-        self.share(self.tier.pick(quick_total, thorough_total))
+        // VERIF_SCALE is a development aid (fraction of the registered fixed work)
+        let scale: f64 = std::env::var("VERIF_SCALE")
+            .ok()
+            .and_then(|s| s.parse().ok())
+            .unwrap_or(1.0);
+        let total = (self.tier.pick(quick_total, thorough_total) as f64 * scale).ceil() as u64;
+        self.share(total)
     }
 
     pub fn is_known(&self, sig: &str) -> bool {
@@ -332,7 +342,7 @@ impl Ctx {
             cases,
             failure_persistence: None,
             rng_seed: RngSeed::Fixed(self.sub_seed(sub)),
-            max_shrink_iters: 4096,
+            max_shrink_iters: self.shrink_iters.get(),
             max_global_rejects: 65536,
             ..Config::default()
         };
